@@ -22,7 +22,9 @@ Tokens == {"ident", "IDENT-and", "ident-important", "ident-inherit", "func", "ur
            "@charset-sp", "@charset", "@import", "@media", "@page", "@font-face", "@namespace", "@variables", "@top-left", "@x",
            "hash", "string", "uri", "number", "percentage", "dimension", "dimension-esc", "number-huge", "urange", "~=", "|=", "cdo", "cdc", "S", "comment",
            "{", "}", "(", ")", "[", "]", ";", ":", ",", ".", "*", "|", ">", "+", "!", "/", "=", "#", "@", "%", "&", "$", "-", "bs",
-           "open-string", "open-comment", "open-url", "nonascii", "astral", "ctl", "nl"}
+           "open-string", "open-comment", "open-url", "nonascii", "astral", "ctl", "nl",
+           \* a token of every kind whose DECODED value ends in a line feed (hex escape a): "end of value" must not be taken for "end of line"
+           "esc-nl-end"}
 \* the context automaton (total): where the parser is after token t in context c; "=" means "stays"
 Shift(c, t) ==
     CASE t \in {"{"} /\ c \in {"selector", "sheet"} -> "decl-block"
@@ -109,16 +111,21 @@ SelSoupRows == {[kind |-> "tokens", ctx |-> c, toks |-> s, entry |-> "string", g
 \* (nothing, a line break and a rule, junk) or succeed (the closer) - matchers that backtrack exponentially on a failing match
 \* show only here
 RunOpeners == {"url(", "url-dq", "url-sq", "dq", "sq", "comment", "ident", "hash", "number", "at", "func", "urange", "cdo", "attr-dq", "important", "bs"}
-RunBodies == {"letters", "digits", "spaces", "bs-pairs", "stars", "escaped-quotes", "nonascii", "hex-escapes", "dashes", "nl-escapes", "slashes", "dots"}
+RunBodies == {"letters", "digits", "spaces", "bs-pairs", "stars", "escaped-quotes", "nonascii", "hex-escapes", "dashes", "nl-escapes", "slashes", "dots",
+              \* hex escapes that START with a letter digit, in both cases (the escape macro must not read them as simple escapes too)
+              "hex-letter-upper", "hex-letter-mixed"}
 RunEnds == {"eof", "newline-rule", "closer", "junk"}
 LongRunRows == {[kind |-> "longrun", opener |-> o, body |-> b, n |-> n, end |-> e, ctx |-> c, entry |-> "string"] :
                    o \in RunOpeners, b \in RunBodies, n \in RunLens, e \in RunEnds, c \in {"sheet", "decl-value"}}
+\* literals longer than the interpreter's integer-string limit (4300 digits), an environment bound like the recursion depth
+LimitRows == {[kind |-> "longrun", opener |-> o, body |-> "digits", n |-> 5000, end |-> e, ctx |-> "decl-value", entry |-> "string"] :
+                 o \in {"number", "hash", "ident", "func", "urange"}, e \in {"closer", "eof"}}
 \* width instead of depth: lists of WideLen items at every place where the grammar has a list (a flat list must not cost
 \* recursion depth - the generators that skip white space in values once nested as deep as the value was long)
 WideKinds == {"value-space", "value-comma", "value-slash", "selector-list", "compound-selector", "descendants", "media-list", "import-media",
               "declarations", "rules", "function-args", "media-rules", "margin-boxes", "variables", "comments", "namespaces", "imports"}
 WideRows == {[kind |-> "wide", what |-> w, n |-> n, entry |-> "string"] : w \in WideKinds, n \in WideLens}
-Rows == TokRows \cup NestRows \cup ConfigRows \cup CodecRows \cup BombRows \cup SelSoupRows \cup LongRunRows \cup WideRows
+Rows == TokRows \cup NestRows \cup ConfigRows \cup CodecRows \cup BombRows \cup SelSoupRows \cup LongRunRows \cup LimitRows \cup WideRows
 Init == row \in Rows
 Next == UNCHANGED row
 Spec == Init /\ [][Next]_row
